@@ -427,6 +427,25 @@ pub fn record(args: &[String]) -> i32 {
         cr: arg_flag(args, "--cr"),
         ascii: arg_flag(args, "--ascii"),
     };
+    if arg_flag(args, "--deep") {
+        // plain chains of nested elements around the implementation's nesting limit
+        for i in 0..count {
+            let depth = 120 + (g.r.gen_range(0..20) as usize) + if i % 4 == 3 { 40 } else { 0 };
+            let name = g.ncname();
+            let mut toks = vec![];
+            for _ in 0..depth {
+                toks.push(json!({"k": "stag", "n": cp(&name), "attrs": [], "lex": "ok"}));
+            }
+            toks.push(json!({"k": "text", "items": [{"t": "c", "c": 120}]}));
+            for _ in 0..depth {
+                toks.push(json!({"k": "etag", "n": cp(&name)}));
+            }
+            toks.push(json!({"k": "end"}));
+            let st = style(&mut g.r);
+            writeln!(w, "{}", json!({"toks": toks, "style": st, "edits": ["deep"]})).unwrap();
+        }
+        return 0;
+    }
     for i in 0..count {
         let mut toks = g.document();
         let ne = match edits {
